@@ -336,6 +336,60 @@ def run_case(inp):
     return viols
 
 
+def run_bank(inp):
+    """More than 256 searched rotations: the reported rotation is the planted one also for rotation
+    indices beyond the range of a narrow integer."""
+    import dask
+    import dask.array as da
+    from scipy import ndimage as ndi
+    from scipy.spatial.transform import Rotation
+    from acryo import pick
+    from acryo._utils import compose_matrices
+    viols = []
+    r = np.random.default_rng(inp["seed"])
+    n = 9
+    T = np.zeros((n, n, n), dtype=np.float32)
+    c = (n - 1) / 2
+    for _ in range(6):
+        p = np.clip(np.round(c + r.uniform(-0.3, 0.3, 3) * n), 1, n - 2).astype(int)
+        T[tuple(p)] += r.uniform(0.5, 1.5)
+    T = ndi.gaussian_filter(T, 0.7).astype(np.float32)
+    M = pick.ZNCCTemplateMatcher(T, rotation=((30, 10), (30, 10), (30, 10)))      # 7^3 = 343 rotations
+    quats = np.asarray(M._quaternions)
+    idxs = [int(v) for v in inp["indices"]]
+    shape = (24, 24, 16 * len(idxs) + 8)
+    vol = np.zeros(shape, dtype=np.float32)
+    ctrs = [(12, 12, 12 + 16 * i) for i in range(len(idxs))]
+    for ctr, k in zip(ctrs, idxs):
+        mtx = compose_matrices(np.array([c, c, c]), [Rotation.from_quat(quats[k]).inv()])[0]
+        tk = ndi.affine_transform(T, mtx, order=1, mode="constant")
+        lo = [ctr[d] - (n - 1) // 2 for d in range(3)]
+        vol[lo[0]:lo[0] + n, lo[1]:lo[1] + n, lo[2]:lo[2] + n] += tk
+    vol += 0.01 * r.normal(size=shape).astype(np.float32)
+    for arr, label in ((vol, "numpy"), (da.from_array(vol, chunks=(24, 24, 20)), "chunks (24, 24, 20)")):
+        try:
+            with warnings.catch_warnings():
+                warnings.simplefilter("ignore")
+                with dask.config.set(scheduler="synchronous"):
+                    out = M.pick_molecules(arr, 1.0, min_distance=5.0, min_score=0.7)
+        except Exception as e:  # noqa: BLE001
+            viols.append({"clause": "no-error", "input": dict(inp), "desc": f"{label}: {type(e).__name__}: {str(e)[:100]}"})
+            continue
+        o = np.lexsort(out.pos.T[::-1])
+        pos, q = out.pos[o], out.rotator.as_quat()[o]
+        if len(pos) != len(ctrs) or np.abs(pos - np.array(sorted(ctrs), dtype=float)).max() > 1e-3:
+            viols.append({"clause": "planted", "input": dict(inp),
+                          "desc": f"343-rotation bank ({label}): picks {pos.tolist()} for particles {sorted(ctrs)}"})
+            continue
+        want = quats[[idxs[ctrs.index(cc)] for cc in sorted(ctrs)]]
+        ang = np.array([(Rotation.from_quat(a) * Rotation.from_quat(b).inv()).magnitude() for a, b in zip(q, want)])
+        if np.degrees(ang).max() > 1.0:
+            viols.append({"clause": "rotation", "input": dict(inp),
+                          "desc": f"343-rotation bank ({label}): particles planted with rotations #{idxs} are reported "
+                                  f"{np.round(np.degrees(ang), 1).tolist()} degrees away from the planted rotation"})
+    return viols
+
+
 def run_empty(inp):
     """No particle at all, or none in some chunk: an empty result, not an error."""
     import dask
@@ -395,13 +449,15 @@ def oracle(rng, thorough, deep=False, hints=None):
                           scale=1.0, dtype="float32", min_distance=5.0,
                           chunkings=[list(c) for c in _chunk_variants(r, shape, 2 if big else 1)],
                           seed=int(rng.integers(0, 10 ** 6))))
+    cases.append(dict(kind="bank", indices=[int(rng.integers(0, 256)), int(rng.integers(256, 343)), 342], seed=int(rng.integers(0, 10 ** 6)),
+                      scale=1.0, shape=[24, 24, 56]))
     cases.append(dict(kind="empty", shape=[24, 20, 28], one=False, chunks=[12, 20, 9], seed=0, scale=1.0))
     cases.append(dict(kind="empty", shape=[30, 26, 28], one=True, chunks=[10, 13, 9], seed=0, scale=1.0))
     viols, stats = [], {"by_kind": {}, "samples": [{"oracle_case": c} for c in cases[:2]]}
     for c in cases:
         stats["by_kind"][c["kind"]] = stats["by_kind"].get(c["kind"], 0) + 1
         try:
-            viols += run_empty(c) if c["kind"] == "empty" else run_case(c)
+            viols += run_empty(c) if c["kind"] == "empty" else (run_bank(c) if c["kind"] == "bank" else run_case(c))
         except Exception as e:  # noqa: BLE001
             viols.append({"clause": "no-error", "desc": f"{c['kind']}: {type(e).__name__}: {str(e)[:120]}", "input": dict(c)})
     return len(cases), viols, stats
@@ -409,5 +465,5 @@ def oracle(rng, thorough, deep=False, hints=None):
 
 def replay(payload):
     inp = dict(payload["input"])
-    v = run_empty(inp) if inp.get("kind") == "empty" else run_case(inp)
+    v = run_empty(inp) if inp.get("kind") == "empty" else (run_bank(inp) if inp.get("kind") == "bank" else run_case(inp))
     return {"violated": bool(v), "violations": v}
